@@ -361,6 +361,209 @@ fn gen_clock(r: &mut Rng) -> u64 {
     }
 }
 
+
+/// C05 part (a): the constructor grid, enumerated (not sampled) as the first run indices of the
+/// C05 campaign: every public constructor / builder path x sizes x ratios x samples x fp ratios,
+/// including every value the statement documents as invalid. Each point then receives a short
+/// seeded history (if it constructs).
+pub fn c05_grid() -> &'static Vec<Header> {
+    static GRID: std::sync::OnceLock<Vec<Header>> = std::sync::OnceLock::new();
+    GRID.get_or_init(|| {
+        let base = |kind: Kind| Header {
+            kind,
+            key_type: "TK".into(),
+            ctor: 0,
+            sizes: vec![],
+            ratios: vec![],
+            samples: 0,
+            max_cost: 0,
+            hashers: vec![HasherSpec::IDENTITY; 4],
+            key_hasher: KeyHasherSpec::from_u(0, 0),
+            random_state: false,
+            with_cb: false,
+            clock: Some(42),
+            universe: 6,
+        };
+        let sizes = [0usize, 1, 2, 3, 4, 7, 8];
+        let ratios = [-1.0, 0.0, 0.25, 0.5, 1.0, 1.5, f64::NAN, f64::INFINITY, f64::NEG_INFINITY];
+        let fps = [f64::NAN, -1.0, 0.0, 1e-9, 0.01, 0.5, 1.0, 2.0];
+        let samples = [0usize, 1, 5];
+        let mut g: Vec<Header> = Vec::new();
+        // RawLRU
+        for rs in [false, true] {
+            for cb in [false, true] {
+                for c in sizes {
+                    let mut h = base(Kind::Lru);
+                    h.random_state = rs;
+                    h.with_cb = cb;
+                    h.sizes = vec![c];
+                    g.push(h);
+                }
+            }
+        }
+        for ctor in 1..=8u8 {
+            for n in [0usize, 1, 2, 3, 5] {
+                let mut h = base(Kind::Lru);
+                h.random_state = true;
+                h.ctor = ctor;
+                h.sizes = vec![n];
+                g.push(h);
+            }
+        }
+        // SegmentedCache
+        for (rs, ctors) in [(false, 2u8), (true, 3u8)] {
+            for ctor in 0..ctors {
+                for cp in 0..4usize {
+                    for cq in 0..4usize {
+                        let mut h = base(Kind::Slru);
+                        h.random_state = rs;
+                        h.ctor = ctor;
+                        h.sizes = vec![cp, cq];
+                        g.push(h);
+                    }
+                }
+            }
+        }
+        // TwoQueueCache
+        for (rs, ctor) in [(false, 0u8), (false, 1), (true, 3), (true, 4)] {
+            for c in sizes {
+                for rr in ratios {
+                    for gr in ratios {
+                        let mut h = base(Kind::TwoQ);
+                        h.random_state = rs;
+                        h.ctor = ctor;
+                        h.sizes = vec![c];
+                        h.ratios = vec![rr, gr];
+                        g.push(h);
+                    }
+                }
+            }
+        }
+        for c in sizes {
+            let mut h = base(Kind::TwoQ);
+            h.random_state = true;
+            h.ctor = 0;
+            h.sizes = vec![c];
+            h.ratios = vec![0.25, 0.5];
+            g.push(h);
+            for r in ratios {
+                let mut h1 = base(Kind::TwoQ);
+                h1.random_state = true;
+                h1.ctor = 1;
+                h1.sizes = vec![c];
+                h1.ratios = vec![r, 0.5];
+                g.push(h1);
+                let mut h2 = base(Kind::TwoQ);
+                h2.random_state = true;
+                h2.ctor = 2;
+                h2.sizes = vec![c];
+                h2.ratios = vec![0.25, r];
+                g.push(h2);
+            }
+        }
+        // AdaptiveCache
+        for rs in [false, true] {
+            for ctor in 0..2u8 {
+                for c in sizes {
+                    let mut h = base(Kind::Arc);
+                    h.random_state = rs;
+                    h.ctor = ctor;
+                    h.sizes = vec![c];
+                    g.push(h);
+                }
+            }
+        }
+        // WTinyLFUCache
+        for ctor in 0..2u8 {
+            for cw in 0..3usize {
+                for cp in 0..3usize {
+                    for cq in 0..3usize {
+                        for s in samples {
+                            for fp in fps {
+                                let mut h = base(Kind::Wtlfu);
+                                h.ctor = ctor;
+                                h.sizes = vec![cw, cp, cq];
+                                h.samples = s;
+                                h.ratios = vec![fp];
+                                g.push(h);
+                            }
+                        }
+                    }
+                }
+            }
+        }
+        for cw in 0..3usize {
+            for cp in 0..3usize {
+                for cq in 0..3usize {
+                    for s in samples {
+                        let mut h = base(Kind::Wtlfu);
+                        h.random_state = true;
+                        h.sizes = vec![cw, cp, cq];
+                        h.samples = s;
+                        h.ratios = vec![0.01];
+                        g.push(h);
+                    }
+                }
+            }
+        }
+        for size in [0usize, 1, 50, 99, 100, 128] {
+            for s in samples {
+                let mut h = base(Kind::Wtlfu);
+                h.random_state = true;
+                h.ctor = 1;
+                let wsz = ((size as f64) * 0.01) as usize;
+                let hsz = ((size as f64) * 0.80) as usize;
+                let csz = ((size as f64) * (1f64 - 0.80)) as usize;
+                h.sizes = vec![wsz, csz, hsz, size];
+                h.samples = s;
+                h.ratios = vec![0.01];
+                g.push(h);
+            }
+        }
+        // TinyLFU
+        for rs in [false, true] {
+            for c in sizes {
+                for s in samples {
+                    for fp in fps {
+                        let mut h = base(Kind::Tlfu);
+                        h.random_state = rs;
+                        h.sizes = vec![c];
+                        h.samples = s;
+                        h.ratios = vec![fp];
+                        g.push(h);
+                    }
+                }
+            }
+        }
+        // SampledLFU
+        for (rs, ctors) in [(false, 5u8), (true, 2u8)] {
+            for ctor in 0..ctors {
+                for mc in [0i64, 1, -5, 100] {
+                    for s in samples {
+                        let mut h = base(Kind::Sampled);
+                        h.random_state = rs;
+                        h.ctor = ctor;
+                        h.max_cost = mc;
+                        h.samples = if (rs && ctor == 0) || (!rs && matches!(ctor, 1 | 3)) { 5 } else { s };
+                        g.push(h);
+                    }
+                }
+            }
+        }
+        for h in g.iter_mut() {
+            let total: usize = h.sizes.iter().take(3).sum();
+            h.universe = ((total + 3).clamp(4, 11)) as u32;
+            if matches!(h.kind, Kind::Tlfu | Kind::Sampled) {
+                h.universe = 4;
+            }
+            if h.kind == Kind::Lru && h.random_state && h.ctor >= 1 {
+                h.universe = h.sizes[0] as u32 + 3;
+            }
+        }
+        g
+    })
+}
+
 struct KeyGen {
     universe: u32,
     mode: u8,
@@ -713,6 +916,14 @@ pub fn gen(prop: &str, verif_seed: u64, run_index: u64, tier: Tier) -> Trace {
     // differential second executions compare two instances: every hasher must be owned
     let differential = pl.env_pair || pl.flip_owned_pair || pl.twin_observer_pair;
     let mut h = gen_header(kind, &mut rc, pl.random_state && !differential, pl.cb, pl.bad_ctor_args, tier);
+    let mut grid_point = false;
+    if prop == "C05" {
+        let g = c05_grid();
+        if (run_index as usize) < g.len() {
+            h = g[run_index as usize].clone();
+            grid_point = true;
+        }
+    }
     let mut conversion_run = false;
     if prop == "C17" && rc.chance(1, 16) {
         // conversions (FromIterator / From<collection>) go through RandomState-keyed tables:
@@ -758,6 +969,7 @@ pub fn gen(prop: &str, verif_seed: u64, run_index: u64, tier: Tier) -> Trace {
         _ => rs.below(max_len + 1),
     } as usize;
     let len = if kind == Kind::Tlfu && h.sizes[0] > 4096 { len.min(10) } else { len };
+    let len = if grid_point { len.min(12) } else { len };
     let mut events: Vec<Event> = Vec::new();
     let mut next_val = 1u64;
     match kind {
